@@ -2648,7 +2648,15 @@ class DataStoreMgr:
         )
         if not tproxy:
             return
-        new_flow_nums = deserialise_set(tproxy.flow_nums).difference(removed)
+        # Start from the flow numbers of a delta that is not yet applied, if
+        # there is one (e.g. flows merged by an earlier command of the same
+        # main loop iteration), else from the store.
+        tp_delta = self.updated[TASK_PROXIES].get(tp_id)
+        if tp_delta is not None and tp_delta.HasField('flow_nums'):
+            current = tp_delta.flow_nums
+        else:
+            current = tproxy.flow_nums
+        new_flow_nums = deserialise_set(current).difference(removed)
         self._delta_task_flow_nums(tp_id, new_flow_nums)
 
     def _delta_task_flow_nums(self, tp_id: str, flow_nums: 'FlowNums') -> None:
